@@ -455,6 +455,38 @@ theorem ensureRoom_indep (a : Arr) (m1 m2 : Mem) (h : m1.sched = m2.sched) :
   · exact ⟨rfl, rfl, h⟩
 
 
+theorem removeAt_sched (a : Arr) (i : Nat) (m : Mem) : (a.removeAt i m).2.2.2.sched = m.sched := by
+  unfold removeAt; split
+  · rfl
+  · simp only; cases (decide (i < a.buf.length) && decide (i + 1 + (a.size - 1 - i) ≤ a.buf.length)) <;> rfl
+
+theorem zipAddCore_indep (b1 b2 : Arr) (it : ArrIter) (x y : Nat) (m1 m2 : Mem) (h : m1.sched = m2.sched) :
+    (zipAddCore b1 b2 it x y m1).1 = (zipAddCore b1 b2 it x y m2).1 ∧
+    (zipAddCore b1 b2 it x y m1).2.1 = (zipAddCore b1 b2 it x y m2).2.1 ∧
+    (zipAddCore b1 b2 it x y m1).2.2.1 = (zipAddCore b1 b2 it x y m2).2.2.1 ∧
+    (zipAddCore b1 b2 it x y m1).2.2.2.1 = (zipAddCore b1 b2 it x y m2).2.2.2.1 ∧
+    (zipAddCore b1 b2 it x y m1).2.2.2.2.sched = (zipAddCore b1 b2 it x y m2).2.2.2.2.sched := by
+  obtain ⟨g1, g2, g3⟩ := addAt_indep b1 x it.index m1 m2 h
+  obtain ⟨k1, k2, k3⟩ := addAt_indep b2 y it.index _ _ g3
+  have u3 : ∀ (a : Arr) (i : Nat) (n1 n2 : Mem), (a.removeAt i n1).2.2.1 = (a.removeAt i n2).2.2.1 := by
+    intro a i n1 n2; unfold removeAt; split <;> rfl
+  unfold zipAddCore
+  by_cases c1 : ((b1.addAt x it.index m2).1 != .ok) = true
+  · have c1' : ((b1.addAt x it.index m1).1 != .ok) = true := by rw [g1]; exact c1
+    simp only [c1, c1', if_true]
+    exact ⟨g1, g2, trivial, trivial, g3⟩
+  · have c1' : ¬ ((b1.addAt x it.index m1).1 != .ok) = true := by rw [g1]; exact c1
+    simp only [c1, c1', Bool.false_eq_true, if_false]
+    by_cases c2 : ((b2.addAt y it.index (b1.addAt x it.index m2).2.2).1 != .ok) = true
+    · have c2' : ((b2.addAt y it.index (b1.addAt x it.index m1).2.2).1 != .ok) = true := by rw [k1]; exact c2
+      simp only [c2, c2', if_true]
+      refine ⟨k1, ?_, k2, trivial, ?_⟩
+      · rw [g2]; exact u3 _ _ _ _
+      · rw [removeAt_sched, removeAt_sched, k3]
+    · have c2' : ¬ ((b2.addAt y it.index (b1.addAt x it.index m1).2.2).1 != .ok) = true := by rw [k1]; exact c2
+      simp only [c2, c2', Bool.false_eq_true, if_false]
+      exact ⟨trivial, g2, k2, trivial, k3⟩
+
 theorem zipAdd_indep (a1 a2 : Arr) (it : ArrIter) (x y : Nat) (m1 m2 : Mem) (h : m1.sched = m2.sched) :
     (zipAdd a1 a2 it x y m1).1 = (zipAdd a1 a2 it x y m2).1 ∧
     (zipAdd a1 a2 it x y m1).2.1 = (zipAdd a1 a2 it x y m2).2.1 ∧
@@ -463,15 +495,13 @@ theorem zipAdd_indep (a1 a2 : Arr) (it : ArrIter) (x y : Nat) (m1 m2 : Mem) (h :
     (zipAdd a1 a2 it x y m1).2.2.2.2.sched = (zipAdd a1 a2 it x y m2).2.2.2.2.sched := by
   obtain ⟨e1, e2, e3⟩ := ensureRoom_indep a1 m1 m2 h
   obtain ⟨f1, f2, f3⟩ := ensureRoom_indep a2 _ _ e3
-  obtain ⟨g1, g2, g3⟩ := addAt_indep (ensureRoom a1 m2).2.1 x it.index _ _ f3
-  obtain ⟨k1, k2, k3⟩ := addAt_indep (ensureRoom a2 (ensureRoom a1 m2).2.2).2.1 y it.index _ _ g3
-  rw [zipAdd_eq, zipAdd_eq]
+  rw [zipAdd_unfold, zipAdd_unfold]
   simp only [e1, e2, f1, f2]
   split
   · exact ⟨rfl, rfl, rfl, rfl, e3⟩
   · split
     · exact ⟨rfl, rfl, rfl, rfl, f3⟩
-    · exact ⟨rfl, g2, k2, rfl, k3⟩
+    · exact zipAddCore_indep _ _ it x y _ _ f3
 
 
 /-- `zip_iter_add` on two arrays that share one allocator triple: own counter balanced, the other
@@ -504,7 +534,7 @@ theorem zipAdd_led (a1 a2 : Arr) (it : ArrIter) (x y : Nat) (m : Mem) (h1 : a1.I
         · rw [expandCapacity_refused a m hmax hal]
         · rw [expandCapacity_success a m hmax hal] at hne; simp at hne
     · exact absurd rfl hne
-  rw [zipAdd_eq]
+  rw [zipAdd_unfold]
   by_cases o1 : (ensureRoom a1 m).1 = .ok
   · have hl1 : Led a1.triple m (ensureRoom a1 m).2.2 0 false := by rw [o1] at l1; exact l1
     simp only [o1, bne_self_eq_false, Bool.false_eq_true, if_false]
@@ -514,20 +544,14 @@ theorem zipAdd_led (a1 a2 : Arr) (it : ArrIter) (x y : Nat) (m : Mem) (h1 : a1.I
       simp only [o2, bne_self_eq_false, Bool.false_eq_true, if_false]
       rcases r1 with ⟨_, _, _, d1, e1, _⟩ | ⟨n1, _⟩
       · rcases r2 with ⟨_, _, _, d2, e2, _⟩ | ⟨n2, _⟩
-        · have pk : ((ensureRoom a1 m).2.1.addAt x it.index (ensureRoom a2 (ensureRoom a1 m).2.2).2.2).2.2 =
-              (ensureRoom a2 (ensureRoom a1 m).2.2).2.2 := by
-            by_cases hi : it.index ≤ (ensureRoom a1 m).2.1.size
-            · exact (addAt_room _ x it.index _ d1 e1 hi).2.2.2.2
-            · rw [addAt_range _ x it.index _ (by omega)]
-          rw [pk]
-          have qk : ((ensureRoom a2 (ensureRoom a1 m).2.2).2.1.addAt y it.index (ensureRoom a2 (ensureRoom a1 m).2.2).2.2).2.2 =
-              (ensureRoom a2 (ensureRoom a1 m).2.2).2.2 := by
-            by_cases hi : it.index ≤ (ensureRoom a2 (ensureRoom a1 m).2.2).2.1.size
-            · exact (addAt_room _ y it.index _ d2 e2 hi).2.2.2.2
-            · rw [addAt_range _ y it.index _ (by omega)]
-          rw [qk]
+        · obtain ⟨hm, hc⟩ := zipAddCore_room (ensureRoom a1 m).2.1 (ensureRoom a2 (ensureRoom a1 m).2.2).2.1 it x y
+            (ensureRoom a2 (ensureRoom a1 m).2.2).2.2 (ensureRoom_inv a1 m h1) (ensureRoom_inv a2 _ h2) d1 d2
+          have hst : (zipAddCore (ensureRoom a1 m).2.1 (ensureRoom a2 (ensureRoom a1 m).2.2).2.1 it x y
+              (ensureRoom a2 (ensureRoom a1 m).2.2).2.2).1 ≠ .errAlloc := by
+            rcases hc with ⟨_, _, e⟩ | ⟨_, e, _⟩ <;> rw [e] <;> simp
+          rw [hm]
           have hl := hl1.trans0 hl2
-          refine ⟨by simpa using hl.1, hl.2.1, fun h => ?_, fun h => by simp at h, fun _ => by simpa using hl.2.2.1⟩
+          refine ⟨by simpa using hl.1, hl.2.1, fun h => ?_, fun h => absurd h hst, fun _ => by simpa using hl.2.2.1⟩
           have := hl.2.2.1; simp at this; omega
         · exact absurd o2 n2
       · exact absurd o1 n1
